@@ -121,7 +121,7 @@ class JsonUtil:
             else:
                 return 'false'
         elif isinstance(key, int):
-            return repr(key)
+            return int.__repr__(key)
         elif isinstance(key, float):
             if key != key:
                 return 'NaN'
@@ -130,7 +130,7 @@ class JsonUtil:
             elif key == -float('inf'):
                 return '-Infinity'
             else:
-                return repr(key)
+                return float.__repr__(key)
         elif key is None:
             return 'null'
         else:
